@@ -70,6 +70,8 @@ def _mk_classes(t1, t2, tc, tb, u1, uc, ti=False):
         m2 = tag(m2)
     if u1:
         mx = tag(mx)
+    Base.__module__ = 'vpmod'
+    Base.__qualname__ = Base.__name__ = 'Base'
     C = type('C', (Base,), {'test_a': m1, 'test_b': m2, '__module__': 'vpmod'})
     if tc:
         C = tag(C)
@@ -108,25 +110,29 @@ def k3_suite(t1: bool, t2: bool, tc: bool, tb: bool, u1: bool, uc: bool, check: 
     mod = types.ModuleType('vpmod')
     mod.C = C
     mod.D = D
+    mod.Base = C.__mro__[1]         # the (possibly tagged) base class is collected as well
     printed = []
     loader = rtc.TaggedTestLoader(check, printer=printed.append)
     if how == 0:
         suite = loader.loadTestsFromModule(mod)
     elif how == 1:
-        suite = loader.loadTestsFromNames(['C', 'D'], mod)
+        suite = loader.loadTestsFromNames(['C', 'D', 'Base'], mod)
     elif how == 2:
-        suite = unittest.TestSuite([loader.loadTestsFromTestCase(C), loader.loadTestsFromTestCase(D)])
+        suite = unittest.TestSuite([loader.loadTestsFromTestCase(C), loader.loadTestsFromTestCase(D),
+                                    loader.loadTestsFromTestCase(mod.Base)])
     else:
         suite = loader.loadTestsFromName('C', mod)
     got = sorted(_flatten(suite, []))
     wantC = ['C.' + n for n, t in (('test_a', t1), ('test_b', t2), ('test_i', ti)) if t or tc or tb]
     wantD = ['D.test_x'] if (u1 or uc) else []
+    wantB = ['Base.test_i'] if (ti or tb) else []      # tagging the subclass C must not tag Base's own tests
     if how == 3:
         wantD = []
+        wantB = []
     if check:
-        classes = (['vpmod.C'] if wantC else []) + (['vpmod.D'] if wantD else [])
+        classes = (['vpmod.Base'] if wantB else []) + (['vpmod.C'] if wantC else []) + (['vpmod.D'] if wantD else [])
         return got == [] and sorted(printed) == classes
-    return got == sorted(wantC + wantD) and printed == []
+    return got == sorted(wantB + wantC + wantD) and printed == []
 
 
 class _Item:
